@@ -31,13 +31,16 @@ CONSTANTS MaxExpr, MaxNest, Shape, Emit
 
 CondPayloads == {"taut-num", "taut-str", "taut-ident", "sleep", "pg_sleep", "benchmark", "load_file", "xp_cmdshell"}
 \* UNION probing is a whole statement: it has no expression steps and no placement, only nesting
-StmtPayloads == {"union-null", "union-system"}
+StmtPayloads == {"union-null", "union-system", "union-null-system"}     \* the last one is both: two documented findings
 Payloads == CondPayloads \cup StmtPayloads
 Doc(p) == CASE p \in {"taut-num", "taut-str", "taut-ident"} -> [class |-> "TAUTOLOGY", sev |-> "CRITICAL"]
             [] p \in {"sleep", "pg_sleep", "benchmark"} -> [class |-> "TIME_BASED", sev |-> "HIGH"]
             [] p = "union-null" -> [class |-> "UNION_BASED", sev |-> "HIGH"]
-            [] p = "union-system" -> [class |-> "UNION_BASED", sev |-> "CRITICAL"]
+            [] p \in {"union-system", "union-null-system"} -> [class |-> "UNION_BASED", sev |-> "CRITICAL"]
             [] OTHER -> [class |-> "OUT_OF_BAND", sev |-> "CRITICAL"]
+\* further documented findings of a payload (the NULL-column probe inside the system-table probe)
+Also(p) == IF p = "union-null-system" THEN {[class |-> "UNION_BASED", sev |-> "HIGH"]} ELSE {}
+Docs(p) == {Doc(p)} \cup Also(p)
 ExprSteps == {"and-left", "and-right", "or-left", "or-right", "not", "paren", "case-when", "in-list", "between", "func-arg", "cast", "arith",
               "case-first-when", "func-first-arg", "in-list-first"}   \* not the last element of a list
 Placements == {"where", "having", "join-on", "update-where", "delete-where", "select-item", "order-by", "insert-value", "update-set", "group-by",
@@ -64,16 +67,20 @@ Init == /\ payload \in Payloads
 PinnedVisits == /\ nests = <<>>
                 /\ place \in {"where", "having", "update-where", "delete-where", "statement"}
                 /\ \A i \in 1..Len(exprs) : exprs[i] \in {"and-left", "and-right", "or-left", "or-right", "not", "paren"}
-Visits == Shape = "closed" \/ PinnedVisits
+Visits == Shape \in {"closed", "early-return"} \/ PinnedVisits
 
 Scan == /\ pc = "scan" /\ pc' = "done"
-        /\ findings' = IF Visits /\ Sev[Doc(payload).sev] >= Sev[threshold] THEN {Doc(payload)} ELSE {}
+        \* Shape "early-return": a detector that stops at the first finding the threshold filters out never
+        \* reaches the graver finding behind it
+        /\ findings' = IF ~Visits THEN {}
+                       ELSE IF Shape = "early-return" /\ \E f \in Also(payload) : Sev[f.sev] < Sev[threshold] THEN {}
+                       ELSE {f \in Docs(payload) : Sev[f.sev] >= Sev[threshold]}
         /\ (Emit /\ threshold = "LOW" => PrintT(ToJson([payload |-> payload, exprs |-> exprs, place |-> place, nests |-> nests,
                                                          class |-> Doc(payload).class, sev |-> Doc(payload).sev])))
         /\ UNCHANGED <<payload, exprs, place, nests, threshold>>
 Spec == Init /\ [][Scan]_vars
 
-ContextClosed == pc = "done" => (Sev[Doc(payload).sev] >= Sev[threshold] => Doc(payload) \in findings)
+ContextClosed == pc = "done" => \A f \in Docs(payload) : Sev[f.sev] >= Sev[threshold] => f \in findings
 Threshold == pc = "done" => \A f \in findings : Sev[f.sev] >= Sev[threshold]
 CountsMatch == pc = "done" => Cardinality(findings) = Cardinality({f \in findings : f.sev \in Thresholds})
 =============================================================================
